@@ -2,7 +2,7 @@
    by `exact <lemma>`, and Print Assumptions.  Model: Model/Abandon.v (interleaving semantics, one
    transition per atomic access).  The coordinator owns Properties/C09.v. *)
 From Coq Require Import NArith ZArith List Bool.
-From MiV Require Import Gen.Consts Model.Abandon Proofs.AbandonProofs Proofs.AbandonOpen.
+From MiV Require Import Gen.Consts Model.Abandon Proofs.AbandonProofs Proofs.AbandonTrace Proofs.AbandonOpen.
 Import ListNotations.
 Local Open Scope N_scope.
 
@@ -34,6 +34,32 @@ Theorem C09_unique_adopter : forall st0 st i g,
    (g_tid g = 0 /\ marked st i = false /\ exists t, in_hand st i t)).
 Proof. exact unique_adopter_reachable. Qed.
 Print Assumptions C09_unique_adopter.
+
+(* the same over traces (the events are what the schedule-lockstep replay matches against the real accesses): the
+   events on the abandoned mark of a segment (its bit of blocks_abandoned / its membership in the abandoned OS list)
+   report the value of the mark before and after the access, so along every trace from a reachable state they form a chain *)
+Theorem C09_trace_marks_chain : forall sched st s,
+  Inv st -> chain (marked st s) (mark_pairs s (run_trace st sched)) = Some (marked (run_schedule st sched) s).
+Proof. exact trace_marks_chain. Qed.
+Print Assumptions C09_trace_marks_chain.
+
+(* adopted once: between two adoptions of the same segment (mark set -> clear: the atomic-and that reports `was set`,
+   the removal from the OS list) every trace contains an abandonment (mark clear -> set) of that segment *)
+Theorem C09_adopted_once_between_abandonments : forall st0 st sched s tr1 e1 tr2 e2 tr3,
+  Inv st0 -> reachable st0 st ->
+  run_trace st sched = tr1 ++ e1 :: tr2 ++ e2 :: tr3 ->
+  is_adoption s e1 = true -> is_adoption s e2 = true ->
+  exists e, In e tr2 /\ is_abandonment s e = true.
+Proof. exact adopted_once_between_abandonments. Qed.
+Print Assumptions C09_adopted_once_between_abandonments.
+
+(* and the adopter is the thread that made the access: after the transition the segment is in its hand
+   (C09_unique_adopter: in nobody else's) *)
+Theorem C09_adoption_takes_in_hand : forall st t st' ev s e,
+  stepx st t = Some (st', ev) -> In e ev -> is_adoption s e = true ->
+  fst (fst (fst e)) = t /\ exists th', thr_at st' t th' /\ holds (t_pc th') = Some s.
+Proof. exact adoption_takes_in_hand. Qed.
+Print Assumptions C09_adoption_takes_in_hand.
 
 (* live blocks survive abandonment and adoption: block memory of a segment is written only by the two
    free steps; no transition of abandon / mark / clear / cursor / reclaim has it in its footprint *)
@@ -91,6 +117,13 @@ Example C09_example_trace :
   [(0%nat, LTidPlain 0, 1%Z, 0%Z); (0%nat, LTid 0, 0%Z, 0%Z); (0%nat, LBit 0, 0%Z, 1%Z);
    (0%nat, LTidPlain 3, 1%Z, 0%Z); (0%nat, LTid 3, 0%Z, 0%Z); (0%nat, LBit 3, 0%Z, 1%Z)].
 Proof. exact ex_trace_prefix. Qed.
+
+Example C09_example_trace_marks :
+  filter (fun e => is_adoption 0 e || is_abandonment 0 e) (run_trace ex_st0 ex_sched1) =
+    [(0%nat, LBit 0, 0%Z, 1%Z); (2%nat, LBit 0, 1%Z, 0%Z); (2%nat, LBit 0, 0%Z, 1%Z); (1%nat, LBit 0, 1%Z, 0%Z)] /\
+  mark_pairs 0 (run_trace ex_st0 ex_sched1) = [(false, false); (false, true); (true, true); (true, false); (false, true); (true, false)] /\
+  mark_pairs 1 (run_trace ex_st0 ex_sched1) = [(false, true); (true, false); (false, true); (true, false)].
+Proof. exact ex_trace_marks. Qed.
 
 Example C09_example_forced_collect :
   inv_b ex_quiet = true /\ quiescent ex_quiet = true /\ count_ok_b ex_quiet [1; 2] = true /\
